@@ -281,7 +281,32 @@ func c03Run(c *core.Ctx, idx int) {
 	c03Check(c, idx, pattern, enumerated)
 }
 
+// c03Seen remembers patterns checked earlier in this process; from time to
+// time a churn phase creates thousands of other rules and a few of the old
+// patterns are compiled again (as new rule objects) and re-checked.
+var (
+	c03Seen    []string
+	c03Checked int
+)
+
 func c03Check(c *core.Ctx, idx int, pattern string, enumerated bool) {
+	c03Checked++
+	if len(c03Seen) < 4096 {
+		c03Seen = append(c03Seen, pattern)
+	} else {
+		c03Seen[c.Rng.Intn(len(c03Seen))] = pattern
+	}
+	if c03Checked%160 == 0 && !c.Env.Replay {
+		churnRules(c, 2600)
+		for k := 0; k < 6; k++ {
+			c03CheckOne(c, idx, c03Seen[c.Rng.Intn(len(c03Seen))], false)
+		}
+		c.Event("second_use_rechecks_after_churn", 6)
+	}
+	c03CheckOne(c, idx, pattern, enumerated)
+}
+
+func c03CheckOne(c *core.Ctx, idx int, pattern string, enumerated bool) {
 	if len(pattern) > 1 && pattern[0] == '/' && pattern[len(pattern)-1] == '/' {
 		c.Event("excluded_regex_shape", 1)
 
